@@ -230,9 +230,15 @@ class Circuit:
         # the circuit which is added is never modified
         circuit = circuit_copy if group else circuit.copy()
         spec = circuit.__circuit_spec
-        # Check circuit size is valid
+        # Check circuit size is valid, existing internal modes within the span
+        # of the added circuit cannot be used by it
         n_heralds = len(circuit.heralds["input"])
-        if mode + circuit.n_modes - n_heralds > self.n_modes:
+        n_available = (
+            self.n_modes
+            - mode
+            - sum(1 for i in self.__internal_modes if i >= mode)
+        )
+        if circuit.n_modes - n_heralds > n_available:
             raise ModeRangeError("Circuit to add is outside of mode range")
 
         # Include any existing internal modes into the circuit to be added
